@@ -4,6 +4,7 @@
   `Proofs/FindRoots.lean`.  The copied set is `Down succ` of the roots (C01).
 -/
 import OrasModel.Proofs.FindRoots
+import OrasModel.Proofs.FindRootsTerm
 import OrasModel.Gen.Facts
 namespace Oras.Props.C03
 open Oras
@@ -255,6 +256,30 @@ theorem c03_fetch_table :
     Gen.fetchATCases.all (fun r => Gen.filterATFetchTypes.contains r.1) = true ∧
     Gen.manifestTypes.all (fun t => Gen.filterAnnFetchTypes.contains t) = true := by
   refine ⟨by rfl, by rfl, by rfl, by decide, by decide⟩
+
+/-- **`findRoots` terminates**: over any finite universe `U` closed under predecessors
+    (every `preds` list bounded by `B`), for every depth limit and start node there is an
+    amount of fuel — `|U|·(B+1) + 2` — with which the loop reaches its exit; the visited set
+    makes every node expand at most once, whatever order `preds` returns.  Together with
+    `c03_depth_bound`, `c03_self` and `c03_unbounded_exact` (which speak about the state at
+    loop exit) this makes those statements total. -/
+theorem c03_terminates (preds : Node → List Node) (depth : Nat) (U : List Node) (B : Nat)
+    (hU : ∀ n ∈ U, ∀ p ∈ preds n, p ∈ U) (hB : ∀ n, (preds n).length ≤ B) (n0 : Node) (h0 : n0 ∈ U) :
+    ∃ roots, findRoots preds depth (U.length * (B + 1) + 2) n0 = some roots := by
+  have hin : StackIn U (FRSt.init n0) := by
+    intro e he
+    simp only [FRSt.init, List.mem_singleton] at he
+    rw [he]; exact h0
+  have hm : frMeasure U B (FRSt.init n0) < U.length * (B + 1) + 2 := by
+    have hc : unvisited U [] ≤ U.length := by unfold unvisited; exact List.countP_le_length
+    have hmul := Nat.mul_le_mul_right (B + 1) hc
+    show unvisited U [] * (B + 1) + 1 < U.length * (B + 1) + 2
+    omega
+  have := frRun_terminates preds depth U B hU hB _ (FRSt.init n0) hin hm
+  unfold findRoots
+  cases hr : frRun preds depth (U.length * (B + 1) + 2) (FRSt.init n0) with
+  | none => rw [hr] at this; cases this
+  | some s => exact ⟨s.roots, rfl⟩
 
 /-- Non-vacuity / depth is not completeness: a diamond where the DFS reaches a node first
     through the long path, so with `depth = 2` an ancestor that is 2 steps away by the short
